@@ -26,6 +26,11 @@ CLAIMED['C12'] = dict(
    text='Proof. checker.rs get_datatype_limits / calc_compu_method_limits / check_limits_valid and the tolerance-free TYPEDEF_MEASUREMENT comparison are modelled on Coq primitive floats (bit-exact IEEE binary64). For all floats: identity/table kinds give the raw range, LINEAR maps both endpoints and swaps them for a negative slope, the linear RAT_FUNC case is inverted and ordered, FORM/general RAT_FUNC give (-MAX, MAX). On the property\'s grid (11 data types x 14 slopes of both signs x 9 offsets x 4 limit placements x tolerant/tolerance-free comparison; and the RAT_FUNC b,c,f grid; identity kinds; unevaluated kinds) the float decision is proved equal to the decision of exact rational arithmetic (Q) whenever values are finite and limits clearly placed: a complete finite check inside the kernel, lifted with forallb_forall, 10008 + 15908 non-vacuous points. Tie: the model is evaluated by coqc/vm_compute on the same bit patterns as the implementation (calc via cfg hook; error decision via public check() on modules built per object kind, which also exercises which data type governs) and compared bit for bit; an independent exact-Fraction oracle in Python decides the clearly placed cases.',
    note='Outside the grid the real-number meaning is not proved (no general rounding-error theorem): partial. Print Assumptions lists only kernel float/int63 primitives; FloatAxioms are not used. Trusted: rustc float literal parsing (compared through correspondence), text->f64 parsing of the A2L loader (C01/C02).',
    design='8 C12')
+CLAIMED['C17'] = dict(
+   technique='Coq proof: decode(encode e t) = t for all ten encodings and all texts (UTF-8/16/32 codec lemmas by arithmetic, detection cascade by case analysis on the leading bytes); byte-exact model/implementation differential; end-to-end file-vs-string oracle',
+   text='Proof. loader.rs decode_raw_bytes (UTF-32 -> UTF-16 -> UTF-8 -> Latin-1 cascade with its length and leading-byte heuristics, char::from_u32, String::from_utf16, strict String::from_utf8) and the BOM removal of load() are modelled on byte lists. Theorem C17_decode_encode: for each of the 10 encodings and EVERY text (any length, any scalar values incl. non-BMP, no NUL, first character ASCII) the string handed to the tokenizer is the UTF-8 form of the text - so load(path) and load_from_string(text) run on identical input. Also: Latin-1 fallback, UTF-8 encoder output always valid, UTF-16 round trip; all closed under the global context. Tie: extracted model vs the real decode_raw_bytes (cfg hook) byte for byte on encoded documents in all length residues and on random / malformed / truncated byte strings; oracle: a2lfile::load on a real file equals load_from_string (model and written text).',
+   note='Hypothesis forced by the proof: no NUL character in the text (a BOM-less UTF-16LE text whose second character is NUL would be taken for UTF-32). std::fs is trusted to return the bytes on disk. Totality is by construction of the model (no partial operation) and validated on random bytes.',
+   design='8 C17')
 REASON_TODO = 'not yet implemented in this round (model/theorems planned in DESIGN.md section 8); no claim is made'
 
 def main():
